@@ -55,7 +55,7 @@ func intLit(v *big.Int) string {
 	return v.String()
 }
 
-func tInt(v int64) Term      { return Term{intLit(big.NewInt(v)), SInt, nil} }
+func tInt(v int64) Term { return Term{intLit(big.NewInt(v)), SInt, nil} }
 func tBool(b bool) Term {
 	if b {
 		return Term{"true", SBool, types.Typ[types.Bool]}
@@ -161,20 +161,22 @@ type sortInfo struct {
 
 // Sorts collects declarations on demand, in dependency order.
 type Sorts struct {
-	w       *World
-	order   []Sort
-	info    map[Sort]*sortInfo
-	busy    map[Sort]bool
-	zeroBusy map[Sort]bool // struct sorts whose zero value is being built (recursion guard)
-	byType  map[string]Sort // types.TypeString -> sort
-	tparams map[string]types.Type
-	typeIDs map[string]int
-	idTypes []types.Type
+	w         *World
+	order     []Sort
+	info      map[Sort]*sortInfo
+	busy      map[Sort]bool
+	hitLog    []Sort               // struct sorts found busy (recursion), in order of discovery
+	deferred  map[Sort][]*sortInfo // struct sorts that mention a still-busy struct: declared right after it
+	zeroBusy  map[Sort]bool        // struct sorts whose zero value is being built (recursion guard)
+	byType    map[string]Sort      // types.TypeString -> sort
+	tparams   map[string]types.Type
+	typeIDs   map[string]int
+	idTypes   []types.Type
 	ifaceImpl map[Sort]map[int]types.Type // iface sort -> type ids used with inj/proj
 	rangeFn   func(x Term, t types.Type, depth int) Term
 	noValInv  bool     // rangeFn without representation invariants (valinv)
 	late      []string // axioms that mention spec functions: emitted after their definitions
-	pkg       string // package of the function under verification
+	pkg       string   // package of the function under verification
 }
 
 func newSorts(w *World) *Sorts {
@@ -252,6 +254,9 @@ func (ss *Sorts) sortOf(t types.Type) Sort {
 		key += "{" + strings.Join(ks, ",") + "}"
 	}
 	if s, ok := ss.byType[key]; ok {
+		if ss.busy[s] {
+			ss.hitLog = append(ss.hitLog, s) // a struct still being built, reached again (recursion)
+		}
 		return s
 	}
 	s := ss.sortOf1(t)
@@ -336,9 +341,11 @@ func (ss *Sorts) sortOf1(t types.Type) Sort {
 			return ss.sortOf(under)
 		}
 	case *types.Pointer:
+		h0 := len(ss.hitLog)
 		es := ss.sortOf(tt.Elem())
 		name := Sort("Pt_" + string(es))
-		if ss.busy[es] {
+		if ss.busy[es] || ss.reachedBusy(h0) {
+			ss.hitLog = ss.hitLog[:h0] // the recursion is cut here
 			// recursion through a pointer: opaque reference
 			ss.declare(&sortInfo{Name: name, Kind: "opaque", Decl: fmt.Sprintf("(declare-sort %s 0)", name), GoType: t})
 			return name
@@ -347,9 +354,11 @@ func (ss *Sorts) sortOf1(t types.Type) Sort {
 			Decl: fmt.Sprintf("(declare-datatypes ((%s 0)) (((nil.%s) (ref.%s (val.%s %s)))))", name, name, name, name, es)})
 		return name
 	case *types.Slice:
+		h0 := len(ss.hitLog)
 		es := ss.sortOf(tt.Elem())
 		name := Sort("Sl_" + string(es))
-		if ss.busy[es] {
+		if ss.busy[es] || ss.reachedBusy(h0) {
+			ss.hitLog = ss.hitLog[:h0] // the recursion is cut here
 			ss.declare(&sortInfo{Name: name, Kind: "opaque", Decl: fmt.Sprintf("(declare-sort %s 0)", name), GoType: t})
 			return name
 		}
@@ -360,10 +369,12 @@ func (ss *Sorts) sortOf1(t types.Type) Sort {
 		es := ss.sortOf(tt.Elem())
 		return Sort(fmt.Sprintf("(Array Int %s)", es))
 	case *types.Map:
+		h0 := len(ss.hitLog)
 		ks := ss.sortOf(tt.Key())
 		vs := ss.sortOf(tt.Elem())
 		name := Sort("Mp_" + sanitize(string(ks)) + "_" + sanitize(string(vs)))
-		if ss.busy[vs] || ss.busy[ks] {
+		if ss.busy[vs] || ss.busy[ks] || ss.reachedBusy(h0) {
+			ss.hitLog = ss.hitLog[:h0] // the recursion is cut here
 			ss.declare(&sortInfo{Name: name, Kind: "opaque", Decl: fmt.Sprintf("(declare-sort %s 0)", name), GoType: t})
 			return name
 		}
@@ -420,9 +431,11 @@ func (ss *Sorts) structSort(name Sort, u *types.Struct, gt types.Type) Sort {
 	}
 	if ss.busy[name] {
 		// recursive type: the enclosing pointer/slice/map becomes an opaque sort
+		ss.hitLog = append(ss.hitLog, name)
 		return name
 	}
 	ss.busy[name] = true
+	hits0 := len(ss.hitLog)
 	si := &sortInfo{Name: name, Kind: "struct", GoType: gt}
 	var fs []string
 	for i := 0; i < u.NumFields(); i++ {
@@ -437,8 +450,34 @@ func (ss *Sorts) structSort(name Sort, u *types.Struct, gt types.Type) Sort {
 	} else {
 		si.Decl = fmt.Sprintf("(declare-datatypes ((%s 0)) (((mk.%s %s))))", name, name, strings.Join(fs, " "))
 	}
+	// indirect recursion (T contains map[K]U, U contains T by value): U is finished while T is
+	// still being built; its declaration mentions T and has to come after T's
+	for _, h := range ss.hitLog[hits0:] {
+		if h != name && ss.busy[h] {
+			if ss.deferred == nil {
+				ss.deferred = map[Sort][]*sortInfo{}
+			}
+			ss.deferred[h] = append(ss.deferred[h], si)
+			return name
+		}
+	}
 	ss.declare(si)
+	for _, d := range ss.deferred[name] {
+		ss.declare(d)
+	}
+	delete(ss.deferred, name)
 	return name
+}
+
+// reachedBusy: the construction of a sort since hitLog position `from` ran into a struct that is
+// still being built - the sort is part of a recursive type
+func (ss *Sorts) reachedBusy(from int) bool {
+	for _, h := range ss.hitLog[from:] {
+		if ss.busy[h] {
+			return true
+		}
+	}
+	return false
 }
 
 func (ss *Sorts) declare(si *sortInfo) {
